@@ -548,8 +548,6 @@ def std_types():
     std("std::ops::Range<u32>", "(uu)", [("(0u32..0u32)", "RV::Struct(vec![RV::U(0), RV::U(0)])"),
                                          ("(1u32..5u32)", "RV::Struct(vec![RV::U(1), RV::U(5)])"),
                                          ("(0u32..u32::MAX)", "RV::Struct(vec![RV::U(0), RV::U(u32::MAX)])")], "Range<u32>")
-    std("std::ops::Range<String>", "(ss)", [("(s(\"\")..s(\"é/€\"))", "RV::Struct(vec![RV::S(s(\"\")), RV::S(s(\"é/€\"))])"),
-                                            ("(s(\"a\")..s(\"b\"))", "RV::Struct(vec![RV::S(s(\"a\")), RV::S(s(\"b\"))])")], "Range<String>")
     std("std::ops::RangeFrom<u8>", "(y)", [("(0u8..)", "RV::Struct(vec![RV::Y(0)])"), ("(255u8..)", "RV::Struct(vec![RV::Y(255)])")], "RangeFrom<u8>")
     std("std::ops::RangeInclusive<i64>", "(xx)", [("(0i64..=1i64)", "RV::Struct(vec![RV::X(0), RV::X(1)])"),
                                                   ("(i64::MIN..=i64::MAX)", "RV::Struct(vec![RV::X(i64::MIN), RV::X(i64::MAX)])")], "RangeInclusive<i64>")
@@ -557,21 +555,14 @@ def std_types():
     out.append(USIZE)
     out.append(ISIZE)
     std("[u8; 2]", "(yy)", [("[0u8, 255u8]", "RV::Struct(vec![RV::Y(0), RV::Y(255)])"), ("[1u8, 2u8]", "RV::Struct(vec![RV::Y(1), RV::Y(2)])")], "[u8;2]")
-    std("[u64; 3]", "(ttt)", [("[0u64, 1u64, u64::MAX]", "RV::Struct(vec![RV::T(0), RV::T(1), RV::T(u64::MAX)])")], "[u64;3]")
     std("[u32; 0]", "y", [("[0u32; 0]", "RV::Y(0)")], "[u32;0]")
     std("std::num::Wrapping<u32>", "u", [("std::num::Wrapping(0u32)", "RV::U(0)"), ("std::num::Wrapping(u32::MAX)", "RV::U(u32::MAX)")], "Wrapping<u32>")
-    std("std::num::Saturating<i16>", "n", [("std::num::Saturating(0i16)", "RV::N(0)"), ("std::num::Saturating(i16::MIN)", "RV::N(i16::MIN)")], "Saturating<i16>")
-    std("std::cmp::Reverse<u8>", "y", [("std::cmp::Reverse(0u8)", "RV::Y(0)"), ("std::cmp::Reverse(255u8)", "RV::Y(255)")], "Reverse<u8>")
     std("Box<String>", "s", [("Box::new(%s)" % e, r) for e, r in STRING.vals], "Box<String>")
-    std("std::borrow::Cow<'static, str>", "s", [("std::borrow::Cow::<'static, str>::Owned(%s)" % e, r) for e, r in STRING.vals], "Cow<str>")
     std("std::num::NonZeroU8", "y", [("std::num::NonZeroU8::new(1).unwrap()", "RV::Y(1)"), ("std::num::NonZeroU8::new(255).unwrap()", "RV::Y(255)")], "NonZeroU8")
-    std("std::num::NonZeroI64", "x", [("std::num::NonZeroI64::new(-1).unwrap()", "RV::X(-1)"), ("std::num::NonZeroI64::new(i64::MIN).unwrap()", "RV::X(i64::MIN)")], "NonZeroI64")
     std("()", "", [("()", None)], "()", unit=True)
     std("zvariant::Optional<u32>", "u", [("zvariant::Optional::<u32>::from(None)", "RV::U(0)"), ("zvariant::Optional::from(Some(7u32))", "RV::U(7)")], "Optional<u32>")
-    std("zvariant::Optional<String>", "s", [("zvariant::Optional::<String>::from(None)", "RV::S(s(\"\"))"), ("zvariant::Optional::from(Some(s(\"a\")))", "RV::S(s(\"a\"))")], "Optional<String>")
     out.append(hashmap(STRING, U32, depth=1, ctor="BTreeMap"))
     out.append(seq_like("BTreeSet", "std::collections::BTreeSet", U8))
-    out.append(seq_like("VecDeque", "std::collections::VecDeque", U16))
     # PhantomData<T>: the library declares T's signature for it.
     out.append(T("PhantomData<u32>", "u", [("PhantomData::<u32>", "RV::U(0)")], "std", "std:PhantomData<u32>", depth=1, eq_hash=True,
                  tags={"phantomdata"}))
@@ -598,24 +589,23 @@ def build_bank():
 
     # depth 1 -----------------------------------------------------------------------------------
     core = [U8, BOOL, U32, I64, F64, STRING]
-    for t in core + [I8, OPATH, OVALUE]:
+    for t in [U8, U32, STRING, F64, OVALUE]:
         add(vec(t))
-    for k, v in [(STRING, U32), (U8, STRING), (I64, BOOL), (STRING, OVALUE), (BOOL, F64), (CHAR, U16), (OPATH, U8)]:
+    for k, v in [(STRING, U32), (U8, STRING), (STRING, OVALUE), (CHAR, F64)]:
         add(hashmap(k, v))
-    for t in [U8, U32, STRING, F64]:
+    for t in [U8, STRING, F64]:
         add(option(t))
-    for fs in [[U8], [U8, U64], [STRING, U8], [BOOL, I16], [F64, STRING]]:
+    for fs in [[U8], [U8, U64], [STRING, BOOL]]:
         add(tuple_(fs))
-    for fs in [[], [U8], [U64], [STRING], [U8, U64], [U8, STRING], [BOOL, I16], [STRING, F64], [U16, U32], [I64, U8],
-               [I8, F32], [CHAR, USIZE], [OPATH, SIGNATURE], [U8, OVALUE]]:
+    for fs in [[], [U64], [STRING], [U8, U64], [U8, STRING], [BOOL, I16], [I8, F32], [CHAR, USIZE], [OPATH, SIGNATURE]]:
         add(named_struct(fs))
-    for fs in [[U8, U64], [STRING, BOOL], [U16, STRING], [F64, U8]]:
+    for fs in [[U8, U64], [STRING, BOOL], [F64, U8]]:
         add(tuple_struct(fs))
-    for t in PRIMS + EXTRA_PRIMS + [USIZE, OPATH, OVALUE]:
+    for t in [U8, BOOL, I64, F64, STRING, I8, OVALUE]:
         add(newtype(t))
     unit = add(unit_struct())
     for r, discs in [("u8", [0, 1, 255]), ("u32", [0, 7, 4294967295]), ("i16", [-32768, 0, 5]), ("i64", [-1, 0, 9223372036854775807]),
-                     ("u64", [1, 2]), ("i8", [-128, 127]), ("u16", [0, 65535]), ("i32", [-2147483648, 3])]:
+                     ("i8", [-128, 127])]:
         add(repr_enum(r, discs))
     add(index_enum(3))
     add(index_enum(2, repr_u32=True))
@@ -623,7 +613,6 @@ def build_bank():
     add(str_enum(["VariantOne", "Two"], rename_all="kebab-case"))
     add(data_enum(["newtype", "newtype"], [F64]))
     add(data_enum(["newtype", "newtype", "newtype"], [STRING]))
-    add(data_enum(["newtype"], [U8]))
     add(data_enum(["tuple", "tuple"], [U16, I64]))
     add(data_enum(["struct", "struct"], [U8, STRING]))
     add(data_enum(["tuple", "struct"], [U16, I64]))
@@ -645,24 +634,17 @@ def build_bank():
     # depth 2: every outer constructor over every depth-1 representative -----------------------------
     reps = [
         named_struct([U8, U64], kind="struct"),
-        tuple_struct([U16, STRING]),
         newtype(STRING),
-        newtype(U64),
         repr_enum("u8", [0, 1, 255]),
-        index_enum(3),
         str_enum(["Variant1", "Variant2"]),
         data_enum(["newtype", "newtype"], [F64]),
         data_enum(["struct", "struct"], [U8, STRING]),
         dict_struct([(U32, False), (STRING, True)]),
         vec(U8),
-        vec(STRING),
         hashmap(STRING, U32),
-        tuple_([U8, STRING]),
         option(U32),
         [t for t in std_types() if t.rust == "Duration"][0],
         [t for t in std_types() if t.rust == "IpAddr"][0],
-        I8,
-        CHAR,
     ]
     for x in reps:
         d = 2
@@ -671,9 +653,7 @@ def build_bank():
         if x.key:
             add(hashmap(x, U8, depth=d))
         add(option(x, depth=d))
-        add(tuple_([U8, x], depth=d))
         add(named_struct([U8, x], depth=d))
-        add(tuple_struct([x, U8], depth=d))
         add(newtype(x, depth=d))
         add(data_enum(["newtype", "newtype"], [x], depth=d))
         add(data_enum(["tuple", "struct"], [U8, x], depth=d))
